@@ -19,9 +19,16 @@ func (vm *Type) VerifState() (ip, liveContexts, sp, frames, closures, stackLen i
 // VerifStep, when set, is called before every instruction is executed.
 var VerifStep func(ip int, instr bytecode.Type, sp, frames, closures int, tmp value.Type)
 
+// VerifStepTop, when set, is called after VerifStep with the value on top of
+// the current context's stack (the operand a stack source would fetch).
+var VerifStepTop func(top value.Type, ok bool)
+
 func verifStep(ip int, instr bytecode.Type, m *memory.Type, tmp value.Type) {
 	if VerifStep != nil {
 		sp, frames, closures, _ := m.VerifState()
 		VerifStep(ip, instr, sp, frames, closures, tmp)
+	}
+	if VerifStepTop != nil {
+		VerifStepTop(m.VerifTop())
 	}
 }
